@@ -6,7 +6,7 @@ import PprofVerif.Gen.CodecSchema
 The expectation is DERIVED from the schemas of `Model/CodecSchema.lean` — which
 `Lemmas/CodecSchemaInterp.lean` proves to be exactly what `Model/Codec.lean` implements — by
 rendering them into the vocabulary of `tools/extract/codecschema.go`.  Hand-written here are only
-  * the names the extractor gives to statement/closure shapes (`encFn`, `decFn`, `guardText`),
+  * the names the extractor gives to statement/closure shapes (`encFn`, `decFn`),
   * the names of the Go `[]decoder` variables,
   * for the interning order: which Go expression feeds which string field of the model's profile
     (`internSites`, paired with the markers of the probe profile `probe`).
@@ -27,21 +27,13 @@ def encFn : EncKind → String
   | .messageLoop => "encodeMessage-in-loop"
   | .messageGuarded _ => "encodeMessage-guarded"
 
-/-- the alpha-normalised Go source of the guard of a guarded message:
-`if v0 := p.F; v0 != nil && (v0.a != 0 || v0.b != 0) { … }` -/
-def guardText (field : String) : EncKind → String
-  | .messageGuarded nz =>
-    "v0 := p." ++ field ++ "; v0 != nil && (" ++
-      " || ".intercalate (nz.map fun f => "v0." ++ f ++ " != 0") ++ ")"
-  | _ => ""
-
+/-- the set of fields the guard of a guarded message tests for `!= 0` (the extractor sorts them) -/
 def guardNonZero : EncKind → List String
   | .messageGuarded nz => nz
   | _ => []
 
 def renderEnc (s : EncStmt) : Gen.CodecSchema.EncStmt :=
-  { tag := s.tag, fn := encFn s.kind, field := s.field, guard := guardText s.field s.kind,
-    guardNonZero := guardNonZero s.kind }
+  { tag := s.tag, fn := encFn s.kind, field := s.field, guardNonZero := guardNonZero s.kind }
 
 /-- extractor name of a decoder-closure shape -/
 def decFn : DecKind → String
@@ -83,31 +75,11 @@ def expectedSchema : List Gen.CodecSchema.Message :=
 def indexesArePositions (m : Gen.CodecSchema.Message) : Bool :=
   m.dec.map (·.index) == List.range m.dec.length
 
-/-! ### the source shape of the proto.go facts (the numbers are tied to the model by theorems) -/
-
-structure ProtoShape where
-  packedCondUint64s : String
-  packedCondInt64s : String
-  varintCond : String
-  defaultRejects : Bool
-  deriving DecidableEq, Repr
-
-def protoShapeOf (p : Gen.CodecSchema.Proto) : ProtoShape :=
-  { packedCondUint64s := p.packedCondUint64s, packedCondInt64s := p.packedCondInt64s,
-    varintCond := p.varintCond, defaultRejects := p.defaultRejects }
-
-/-- `if len(x) > N` (x = third parameter), `if i >= N || i >= len(data)`, `default: return nil, err` -/
-def expectedProtoShape (p : Gen.CodecSchema.Proto) : ProtoShape :=
-  { packedCondUint64s := "len(a2) > " ++ toString p.packedThresholdUint64s,
-    packedCondInt64s := "len(a2) > " ++ toString p.packedThresholdInt64s,
-    varintCond := "v0 >= " ++ toString p.varintLimit ++ " || v0 >= len(a0)",
-    defaultRejects := true }
-
 /-! ### the order in which preEncode interns strings
 
 `probe` is a profile of the model in which every string field carries its own one-byte marker.
-`internSites` pairs each `addString` call of the Go source (as the extractor prints it: enclosing
-loop/if headers, argument) with the marker of the model field it feeds.  The model's order is then
+`internSites` pairs each `addString` call of the Go source (as the extractor describes it: symbolic
+paths of the enclosing loops/conditions and of the argument, no local names) with the marker of the model field it feeds.  The model's order is then
 READ OFF `Codec.preEncode probe` (theorem `intern_order_model` in Props), not typed in. -/
 
 def probe : Profile :=
@@ -129,34 +101,41 @@ def probe : Profile :=
     period := 0 }
 
 structure InternSite where
-  ctx : String
-  arg : String
+  ctx : List String  -- symbolic paths of the enclosing loops / conditions, outermost first
+  arg : String       -- symbolic path of the interned expression
   marker : Str       -- the marker the probe carries in the model field this expression feeds
   deriving DecidableEq, Repr
 
+/-- `E[]` = the element of a loop over `E`; `idx(E)` = the index of that loop; `sorted(keys(M))` = the
+key list collected from map `M` and sorted. -/
 def internSites : List InternSite :=
-  [ ⟨"", "\"\"", []⟩,                                                       -- addString(strings, "")
-    ⟨"for _, x0 := range p.SampleType", "x0.Type", [1]⟩,                     -- sampleType[i].typ
-    ⟨"for _, x0 := range p.SampleType", "x0.Unit", [2]⟩,                     -- sampleType[i].unit
-    ⟨"for _, x0 := range p.Sample { for _, x1 := range sorted(keys(x0.Label)) { for _, x2 := range x0.Label[x1]",
-      "x1", [3]⟩,                                                           -- label key
-    ⟨"for _, x0 := range p.Sample { for _, x1 := range sorted(keys(x0.Label)) { for _, x2 := range x0.Label[x1]",
-      "x2", [4]⟩,                                                           -- label value
-    ⟨"for _, x0 := range p.Sample { for _, x1 := range sorted(keys(x0.NumLabel))", "x1", [5]⟩,   -- numLabel key
-    ⟨"for _, x0 := range p.Sample { for _, x1 := range sorted(keys(x0.NumLabel)) { for i2, x2 := range x0.NumLabel[x1] { if len(x0.NumUnit[x1]) != 0",
-      "x0.NumUnit[x1][i2]", [6]⟩,                                           -- numUnit[key][i]
-    ⟨"for _, x0 := range p.Mapping", "x0.File", [7]⟩,
-    ⟨"for _, x0 := range p.Mapping", "x0.BuildID", [8]⟩,
-    ⟨"for _, x0 := range p.Function", "x0.Name", [9]⟩,
-    ⟨"for _, x0 := range p.Function", "x0.SystemName", [10]⟩,
-    ⟨"for _, x0 := range p.Function", "x0.Filename", [11]⟩,
-    ⟨"", "p.DropFrames", [12]⟩,
-    ⟨"", "p.KeepFrames", [13]⟩,
-    ⟨"if v0 := p.PeriodType; p.PeriodType != nil", "p.PeriodType.Type", [14]⟩,
-    ⟨"if v0 := p.PeriodType; p.PeriodType != nil", "p.PeriodType.Unit", [15]⟩,
-    ⟨"for _, x0 := range p.Comments", "x0", [16]⟩,
-    ⟨"", "p.DefaultSampleType", [17]⟩,
-    ⟨"", "p.DocURL", [18]⟩ ]
+  let labelKeys := "sorted(keys(p.Sample[].Label))"
+  let numKeys := "sorted(keys(p.Sample[].NumLabel))"
+  let labelVals := "p.Sample[].Label[" ++ labelKeys ++ "[]]"
+  let numVals := "p.Sample[].NumLabel[" ++ numKeys ++ "[]]"
+  let numUnits := "p.Sample[].NumUnit[" ++ numKeys ++ "[]]"
+  [ ⟨[], "\"\"", []⟩,                                                       -- addString(strings, "")
+    ⟨["range p.SampleType"], "p.SampleType[].Type", [1]⟩,
+    ⟨["range p.SampleType"], "p.SampleType[].Unit", [2]⟩,
+    -- per sample: string labels by sorted key, key then value for every value
+    ⟨["range p.Sample", "range " ++ labelKeys, "range " ++ labelVals], labelKeys ++ "[]", [3]⟩,
+    ⟨["range p.Sample", "range " ++ labelKeys, "range " ++ labelVals], labelVals ++ "[]", [4]⟩,
+    -- then numeric labels by sorted key: the key once, then the unit of every value when units exist
+    ⟨["range p.Sample", "range " ++ numKeys], numKeys ++ "[]", [5]⟩,
+    ⟨["range p.Sample", "range " ++ numKeys, "range " ++ numVals, "if len(" ++ numUnits ++ ") != 0"],
+      numUnits ++ "[idx(" ++ numVals ++ ")]", [6]⟩,
+    ⟨["range p.Mapping"], "p.Mapping[].File", [7]⟩,
+    ⟨["range p.Mapping"], "p.Mapping[].BuildID", [8]⟩,
+    ⟨["range p.Function"], "p.Function[].Name", [9]⟩,
+    ⟨["range p.Function"], "p.Function[].SystemName", [10]⟩,
+    ⟨["range p.Function"], "p.Function[].Filename", [11]⟩,
+    ⟨[], "p.DropFrames", [12]⟩,
+    ⟨[], "p.KeepFrames", [13]⟩,
+    ⟨["if p.PeriodType != nil"], "p.PeriodType.Type", [14]⟩,
+    ⟨["if p.PeriodType != nil"], "p.PeriodType.Unit", [15]⟩,
+    ⟨["range p.Comments"], "p.Comments[]", [16]⟩,
+    ⟨[], "p.DefaultSampleType", [17]⟩,
+    ⟨[], "p.DocURL", [18]⟩ ]
 
 def expectedInternOrder : List Gen.CodecSchema.InternSite :=
   internSites.map fun s => { ctx := s.ctx, arg := s.arg }
@@ -167,10 +146,11 @@ def internTable (p : Profile) : Option (List Str) :=
   | .ok x => some x.stringTable
   | _ => none
 
-/-! ### dense id tables of postDecode: one per entity table, each `len+1` long, every index guarded -/
+/-! ### dense id tables of postDecode: one per entity table, each `len+extra` long, no index
+expression outside its `id < uint64(len(table))` guard (recognised inline or behind a helper type) -/
 def expectedDenseTables (extra : Nat) : List Gen.CodecSchema.DenseTable :=
-  [ { elem := "Mapping", table := "Mapping", extra := extra, guardedIndexes := 2 },
-    { elem := "Function", table := "Function", extra := extra, guardedIndexes := 2 },
-    { elem := "Location", table := "Location", extra := extra, guardedIndexes := 2 } ]
+  [ { elem := "Mapping", table := "Mapping", extra := extra, unguardedIndexes := 0 },
+    { elem := "Function", table := "Function", extra := extra, unguardedIndexes := 0 },
+    { elem := "Location", table := "Location", extra := extra, unguardedIndexes := 0 } ]
 
 end PV.Spec.CodecSchemaExpected
